@@ -36,9 +36,9 @@ OPERANDS = ["int0", "float", "str", "list", "none", "markup", "undef_same", "und
 BINOPS = ["+", "-", "*", "/", "//", "%", "**"]
 CMPOPS = ["<", "<=", ">", ">="]
 UNARY_OPS = ["str", "format", "fstring", "bool", "iter", "len", "hash", "pos", "neg", "int", "float", "complex",
-             "getattr", "getitem_str", "getitem_int", "call", "call_args", "is_defined", "is_undefined",
+             "getattr", "getattr_us", "getattr_dpre", "getattr_dsuf", "getitem_str", "getitem_int", "call", "call_args", "is_defined", "is_undefined",
              "default", "default_true", "copy", "deepcopy", "pickle", "dunder_probe", "html_probe"]
-TPL_UNARY = {"str", "bool", "iter", "len", "pos", "neg", "getattr", "getitem_str", "getitem_int", "call", "call_args",
+TPL_UNARY = {"str", "bool", "iter", "len", "pos", "neg", "getattr", "getattr_us", "getattr_dpre", "getattr_dsuf", "getitem_str", "getitem_int", "call", "call_args",
              "is_defined", "is_undefined", "default", "default_true", "int", "float"}
 
 HINT = "custom hint text 4711"
@@ -170,7 +170,7 @@ def expected(base, origin, op, operand):
         return ERR if strict else val(lambda v: isinstance(v, int), "an int")
     if op in ("pos", "neg", "int", "float", "complex", "call", "call_args"):
         return ERR
-    if op in ("getattr", "getitem_str", "getitem_int"):
+    if op in ("getattr", "getattr_us", "getattr_dpre", "getattr_dsuf", "getitem_str", "getitem_int"):
         if base == "chainable":
             return val("same_kind_undefined", "an undefined of the same type")
         return ERR
@@ -252,6 +252,12 @@ def _do_py(env, u, op, other):
         return complex(u)
     if op == "getattr":
         return u.some_attr
+    if op == "getattr_us":
+        return getattr(u, "_private_attr")
+    if op == "getattr_dpre":  # starts with two underscores but is not a dunder name
+        return getattr(u, "__mangled_attr")
+    if op == "getattr_dsuf":
+        return getattr(u, "suffixed_attr__")
     if op == "getitem_str":
         return u["some_key"]
     if op == "getitem_int":
@@ -294,6 +300,9 @@ def _tpl_source(origin, op):
         "str": "{{ %s }}" % e, "bool": "{{ 'T' if %s else 'F' }}" % e,
         "iter": "[{%% for q in %s %%}x{%% endfor %%}]" % e, "len": "{{ %s|length }}" % e,
         "pos": "{{ +(%s) }}" % e, "neg": "{{ -(%s) }}" % e, "getattr": "{{ (%s).some_attr is undefined }}|{{ (%s).some_attr }}" % (e, e),
+        "getattr_us": "{{ (%s)._private_attr is undefined }}|{{ (%s)._private_attr }}" % (e, e),
+        "getattr_dpre": "{{ (%s).__mangled_attr is undefined }}|{{ (%s).__mangled_attr }}" % (e, e),
+        "getattr_dsuf": "{{ (%s).suffixed_attr__ is undefined }}|{{ (%s).suffixed_attr__ }}" % (e, e),
         "getitem_str": "{{ (%s)['some_key'] is undefined }}|{{ (%s)['some_key'] }}" % (e, e),
         "getitem_int": "{{ (%s)[3] is undefined }}|{{ (%s)[3] }}" % (e, e),
         "call": "{{ (%s)() }}" % e, "call_args": "{{ (%s)(1, k=2) }}" % e,
@@ -322,7 +331,7 @@ def _render_expect(base, origin, op, operand, exp):
         return "[]"
     if op == "len":
         return "0"
-    if op in ("getattr", "getitem_str", "getitem_int"):
+    if op in ("getattr", "getattr_us", "getattr_dpre", "getattr_dsuf", "getitem_str", "getitem_int"):
         return "True|"  # chainable: undefined again, prints ''
     if op in ("is_defined",):
         return "False"
